@@ -168,6 +168,11 @@ def predicate(op, il, mres, tag):
         if first == "notimpl" and not il.startswith("err token:0 signs=1"):
             return ("Relic.Props.C15.classification_end_to_end", "err token:0 signs=1", "permanent error retried or reclassified")
         return None
+    if kind == "cacherace":
+        if il.startswith("ok p=") and il.split()[1] not in ("p=1", "p=!"):
+            return ("Relic.Props.C15.pinned_key_never_stale", "key 1 or an error",
+                    "a request pinned to key id 1, overlapping a rotation and %s unpinned lookups, was served: %s" % (f[3], il))
+        return None
     if kind == "cache":
         n = int(f[3])
         steps = f[4:4 + n]
